@@ -289,7 +289,16 @@ def c16_c(ctx: Ctx):
                     out.append(ctx.viol(R, t, n, f"only directories whose direct parent is in {setname} are skipped and they are not recorded: a state point file two or more levels "
                                         "below an identified job directory is imported as an additional job"))
     if not found:
-        out.append(ctx.inc(R, t, t.node, "tar analyser: sub-directory skipping shape not recognised"))
+        # positive pattern: the only nesting test is `dirname(name) == <identified directory>`: one level, and nothing records the skipped directory
+        one_level = [n for n in ast.walk(t.node) if isinstance(n, ast.Compare) and len(n.ops) == 1 and isinstance(n.ops[0], ast.Eq)
+                     and (common.pmatch("os.path.dirname(N)", n.left) is not None or common.pmatch("os.path.dirname(N)", n.comparators[0]) is not None)]
+        anc_t = [c for c in ast.walk(t.node) if isinstance(c, ast.Call) and ((isinstance(c.func, ast.Name) and c.func.id == "_zip_path_is_within")
+                                                                              or (isinstance(c.func, ast.Attribute) and c.func.attr in ("startswith", "is_relative_to", "commonpath")))]
+        if one_level and not anc_t:
+            out.append(ctx.viol(R, t, one_level[0], f"the tar analyser recognises nesting only by `{canon(one_level[0])[:50]}`, i.e. one level below an identified job directory, and does not "
+                                "record the skipped directory: a state point file two or more levels inside a job's file tree is imported as an additional job that was never exported"))
+        else:
+            out.append(ctx.inc(R, t, t.node, "tar analyser: sub-directory skipping shape not recognised"))
     # zip analyser: its directory set holds only directories that directly contain files, so it is not closed under parents;
     # skipping must therefore test *ancestry*, not parent membership
     z = ctx.fn(IE + ":_analyze_zipfile_for_import")
@@ -535,7 +544,15 @@ def c16_f(ctx: Ctx):
 def c16_g(ctx: Ctx):
     """The path specification distinguishes None (automatic), False (by id) and strings: no truthiness decision."""
     from .lints import sentinel_discipline
-    return sentinel_discipline(ctx, "C16-g", [("signac.import_export:_make_path_function", "path", "path=False means 'use the job id' and '' is a format string: a truthiness test sends both to the automatic schema path")])
+    table = [("signac.import_export:_make_path_function", "path", "path=False means 'use the job id' and '' is a format string: a truthiness test sends both to the automatic schema path")]
+    # the state point parsed for a directory (the value handed to open_job): None means 'not a job directory', {} is the state point of a job
+    for g in ctx.prog.functions_of_module(IE):
+        for c in body_nodes(g):
+            if isinstance(c, ast.Call) and isinstance(c.func, ast.Attribute) and c.func.attr == "open_job" and c.args and isinstance(c.args[0], ast.Name) and c.args[0].id not in g.params:
+                ent = (g.qual, c.args[0].id, "the empty state point {} is a valid state point: taken for 'not a job directory' the job is silently left out of the import")
+                if ent not in table:
+                    table.append(ent)
+    return sentinel_discipline(ctx, "C16-g", table)
 
 
 @rule("C16-h")
